@@ -10,6 +10,9 @@ from pathlib import Path
 
 ID = "C18"
 LEVEL = "proof"
+# translator tie: the cctype / cwctype kernels are REGENERATED from /repo's source on every run (coq/Gen/) and proved
+# equal to the model in coq/C18/GenEquiv.v (Properties_gen.v)
+TRANSLATE = [("translate/kernels_cctype.json", "coq/Gen/Gen_cctype.v"), ("translate/kernels_cwctype.json", "coq/Gen/Gen_cwctype.v")]
 _COMMON = ["-DTETL_ENABLE_CONTRACT_CHECKS=1"]
 HARNESSES = [
     {"name": "main", "src": "harness.cpp", "flags": ["-O1"] + _COMMON},
